@@ -300,3 +300,11 @@ Proof. reflexivity. Qed.
 Print Assumptions k_hbu_conds_eq.
 Print Assumptions hbu_while_with_kernels.
 Print Assumptions hbu_poly_with_kernels.
+
+(* ---- ml_dsa.rs: counter bookkeeping of the signing loop, pinned as source text: kappa starts at 0u16, both exits test
+   `kappa_ctr <= kappa_max` with kappa_max = u16::MAX - 2*L and then advance by L - which is what Impl.MlDsa.sign_loop does
+   (guard (lz P <? 65536); if kappa <=? 65535 - 2 * lz P then .. (kappa + lz P) else Err LoopLimit) after either exit ---- *)
+Lemma sign_loop_bookkeeping :
+  k_sign_kappa_init = "0u16"%string /\ k_sign_kappa_max = "u16::MAX - 2 * u16::try_from(L)"%string /\
+  k_sign_kappa_steps = [("kappa_ctr <= kappa_max", "u16::try_from(L)"); ("kappa_ctr <= kappa_max", "u16::try_from(L)")]%string.
+Proof. repeat apply conj; reflexivity. Qed.
